@@ -42,6 +42,18 @@ def cbrt(x):
     else:
         return -((-x) ** (1 / 3))
 
+def valid_oklch(oklch):
+    if not (0 <= oklch[0] <= 1):
+        return False
+    if oklch[1] < 0:
+        return False
+    if not (0 <= oklch[2] <= 360):
+        return False
+    return True
+
+def valid_rgb(rgb):
+    return all(0 <= value <= 255 for value in rgb)
+
 def cube(x):
     if x >= 0:
         return x * x * x
@@ -128,6 +140,9 @@ def run(project, chk):
     audit(project, chk, "K1", f"{V}.rgb_to_oklch", REF, "forward", pol(), "sRGB -> OKLCH (Ottosson)")
     audit(project, chk, "K2", f"{V}.oklch_to_rgb", REF, "inverse", pol(), "OKLCH -> sRGB (Ottosson)")
     audit(project, chk, "K3", f"{V}.linear_to_srgb", REF, "gamma", pol(var_map={"c": "channel"}), "the inverse sRGB transfer function")
+    # the validators the safe wrappers rely on: the documented closed ranges, inclusive (H = 360 and L = 1 are valid input)
+    audit(project, chk, "K5", f"{V}.is_valid_oklch", REF, "valid_oklch", Policy(), "the validity range of an OKLCH triple (L in [0,1], C >= 0, H in [0,360], inclusive)", inline=False)
+    audit(project, chk, "K5", f"{V}.is_valid_rgb", REF, "valid_rgb", Policy(), "the validity range of an 8-bit triple (0..255 inclusive)", inline=False)
 
     # ---------------------------------------------------------------- K4 from the code's own literals
     try:
